@@ -71,16 +71,27 @@ func unitsOf(b []byte) (h int, units []int) {
 // reported in the evidence and on stdout, never as violations.
 func (c *Ctx) frameConformance(calls []*Call, members map[int][][]byte) {
 	var tb bytes.Buffer
-	n := 0
+	n, ndec, nint := 0, 0, 0
 	for _, cl := range calls {
 		ms := members[cl.ID]
-		if n >= 60 || len(cl.Input) > 1500 {
+		if len(cl.Input) > 1500 {
 			continue // a sample is enough for drift detection; large inputs make the state vector heavy
 		}
-		if ms == nil || (cl.API != "decode" && cl.API != "chained") || len(cl.Reads) == 0 || cl.Ret.Hang == 1 || cl.Ret.Panic == 1 {
+		if ms == nil || (cl.API != "decode" && cl.API != "chained" && cl.API != "integrity") || len(cl.Reads) == 0 || cl.Ret.Hang == 1 || cl.Ret.Panic == 1 {
 			continue
 		}
-		if cl.API == "decode" {
+		if cl.API == "integrity" {
+			if nint >= 30 {
+				continue
+			}
+			nint++
+		} else {
+			if ndec >= 60 {
+				continue
+			}
+			ndec++
+		}
+		if cl.API != "chained" {
 			ms = ms[:1]
 		}
 		var files []map[string]interface{}
@@ -89,7 +100,16 @@ func (c *Ctx) frameConformance(calls []*Call, members map[int][][]byte) {
 			if u == nil {
 				u = []int{}
 			}
-			files = append(files, map[string]interface{}{"h": h, "units": u})
+			mode := "decode"
+			if cl.API == "integrity" {
+				// CheckIntegrity copies the data area as one unit of DataSize bytes
+				mode = "integrity"
+				u = []int{}
+				if ds := int(uint32(m[4]) | uint32(m[5])<<8 | uint32(m[6])<<16 | uint32(m[7])<<24); ds > 0 {
+					u = []int{ds}
+				}
+			}
+			files = append(files, map[string]interface{}{"h": h, "units": u, "mode": mode})
 		}
 		b, _ := json.Marshal(map[string]interface{}{"id": cl.ID, "files": files, "avail": cl.Avail, "fault": cl.Fault, "reads": cl.Reads, "err": cl.Ret.Err})
 		tb.Write(b)
